@@ -9,7 +9,12 @@ UNITS = dict(C01.UNITS)
 UNITS['parser'] = dict(src=HTTP, mode='inl', roots=['_ZN8Pistache4Http7Private10ParserBase4feedEPKcm', '_ZN8Pistache4Http7Private10ParserBase5resetEv',
                        '_ZN8Pistache4Http7Private10ParserBase5parseEv'], stubs=APPLY,
     globals=['_ZTVN8Pistache4Http7Private8BodyStepE', '_ZTVN8Pistache4Http7Private11HeadersStepE', '_ZTVN8Pistache4Http7Private15RequestLineStepE'])
+ONINPUT = '_ZN8Pistache4Http7Handler7onInputEPKcmRKSt10shared_ptrINS_3Tcp4PeerEE'
+UNITS['oninput'] = dict(src=HTTP, mode='sel', roots=[ONINPUT], stubs_re=r'^_ZN8Pistache4Http7Private10ParserBase(4feedEPKcm|5parseEv|5resetEv)|^_ZN8Pistache4Http7Private10ParserImplINS0_7RequestEE5resetEv|^_ZNK?8Pistache4Http7Handler9getParserE|^_ZN8Pistache3Tcp7Handler9transportEv|^_ZN8Pistache4Http9HttpErrorD[012]Ev|^_ZN8Pistache4Http14ResponseWriterC[12]E|^_ZN8Pistache4Http14ResponseWriterD[12]Ev|^_ZN8Pistache4Http14ResponseWriter8sendImplE|^_ZN8Pistache4Http14ResponseWriter4sendE|^_ZN8Pistache5Async7PromiseIlED[02]Ev|^_ZN8Pistache4Http7Request11copyAddressE|^_ZNK8Pistache4Http6Header10Collection6tryGet|^_ZN8Pistache4Http6Header10Collection3add|^_ZN8Pistache4Http9HttpErrorC[12]E|^_ZNK8Pistache4Http9HttpError|^_ZN8Pistache4Http4Mime9MediaTypeC2Ev')
 HARNESSES = [
+  dict(name='on_input', units=['oninput'], file='c04_oninput.c', defs={'VP_DISPATCH_rvoid_u8p_u8p_u8p': None, 'VP_DISPATCH_ru8p_u8p': None}, unwind=4, hunwind=50,
+       bound='every outcome of one read: feed accepted / refused; parse Again / Done / HttpError with any status 400..599 / another std::exception; request with or without a Connection header',
+       desc='(c) Handler::onInput: Again leaves the parser alone; Done hands the request over once and resets afterwards; every error path answers exactly once with the right status (413 / parser code / 500), never calls the handler, and resets the parser'),
   dict(name='reset', units=['parser'], file='c04_parser.c', defs={'H_RESET': None, 'S': 4}, unwind=7,
        bound='arbitrary step index 0..2, arbitrary 64-bit body/chunk counters, buffer of <= 4 bytes with any read offset and capacity',
        desc='(a) ParserBase::reset() restores the state of a fresh parser from ANY state (inductive step: covers every history before a reset)'),
@@ -19,4 +24,4 @@ for h in C01.HARNESSES:
     if h['name'].startswith(('body_cl', 'chunk_n8_', 'chunk_n11_k5', 'chunk_n11_k3', 'chunk_n11_k8')) or 'quick' not in h.get('tiers', ('quick',)):
         HARNESSES.append(h)
 ASSUMPTIONS = C01.ASSUMPTIONS + ['reset harness: the three step objects carry the real vtables of RequestLineStep/HeadersStep/BodyStep; Request::operator= (message reset) is outside this kernel (ParserImpl<Request>::reset assigns a default-constructed Request)']
-OUTSIDE = ['Handler::onInput / Connection::handleResponsePacket call reset exactly once per finished message (sel-mode harness: see DESIGN.md C04 c)', 'header/cookie/query containers of the Request object (replaced wholesale by request = Request())']
+OUTSIDE = ['the client side (Connection::handleResponsePacket)', 'bytes of a following request that arrive in the same read as the end of a request (discarded by reset: see DESIGN.md C04)', 'header/cookie/query containers of the Request object (replaced wholesale by request = Request())']
